@@ -954,9 +954,21 @@ func (p *parser) quant() (Expr, error) {
 			p.next()
 			ty = "*"
 		}
+		if p.isKw("mapof") {
+			p.next()
+			if err := p.expectOp("("); err != nil {
+				return nil, err
+			}
+			ty = "mapof:"
+		}
 		d, err := p.dotted()
 		if err != nil {
 			return nil, err
+		}
+		if ty == "mapof:" {
+			if err := p.expectOp(")"); err != nil {
+				return nil, err
+			}
 		}
 		q.Type = ty + d
 	} else {
